@@ -170,7 +170,8 @@ CHECKS["C16"] = dict(
     level_note="Designating a graph node is modelled as addressing the nodes of the option's type inside that graph. Tools-node and chat-model options are not generated (their routing goes through the same extractOption code path; their delivery to tools is C17's business).",
     rule="rapid draws the node tree and the calls; non-trivial = nesting depth >= 1, >= 3 component kinds, at least one option designated to a path of length >= 2 and one undesignated option; distinct = FNV-1a of case JSON",
     assumptions=["all values of one WithLambdaOption call share a type (documented precondition)"],
-    parts=[rapid_part("rapid", "compose", "TestC16", 5000, 750000, qshards=4, replay_test="TestC16Replay")],
+    parts=[rapid_part("rapid", "compose", "TestC16", 5000, 750000, qshards=4, replay_test="TestC16Replay"),
+           rapid_part("tools", "compose", "TestC16Tools", 4000, 200000, replay_test="TestC16ToolsReplay")],
 )
 
 CHECKS["C10"] = dict(
@@ -220,7 +221,8 @@ CHECKS["C09"] = dict(
     parts=[rapid_part("graphs", "compose", "TestC09", 600, 12500, race=True, replay_test="TestC09Replay", replay_reps=5),
            rapid_part("react", "flow/agent/react", "TestC09React", 400, 7500, race=True, replay_test="TestC09ReactReplay", replay_reps=5),
            rapid_part("host", "flow/agent/multiagent/host", "TestC09Host", 400, 7500, race=True, replay_test="TestC09HostReplay", replay_reps=5),
-           rapid_part("tools", "compose", "TestC09Tools", 500, 10000, race=True, replay_test="TestC09ToolsReplay", replay_reps=5)],
+           rapid_part("tools", "compose", "TestC09Tools", 500, 10000, race=True, replay_test="TestC09ToolsReplay", replay_reps=5),
+           rapid_part("wfmapping", "compose", "TestC09Workflow", 400, 8000, race=True, replay_test="TestC09WorkflowReplay", replay_reps=5)],
 )
 
 CHECKS["C19"] = dict(
